@@ -4,6 +4,7 @@ order-insensitive operations."""
 from __future__ import annotations
 
 import ast
+import re
 from typing import Dict, List, Optional, Set, Tuple
 
 from ..core import AnalysisError, Func, call_name, norm, short, walk_no_nested
@@ -25,7 +26,7 @@ def _set_names(f: Func, setfuncs: Set[str]) -> Set[str]:
     names: Set[str] = set()
     a = f.node.args
     for x in a.posonlyargs + a.args + a.kwonlyargs:
-        if x.annotation is not None and norm(x.annotation).lower().startswith("set"):
+        if x.annotation is not None and re.search(r"\b(Set|set|FrozenSet|frozenset|AbstractSet|MutableSet)\b", norm(x.annotation)):
             names.add(x.arg)
     changed = True
     while changed:
@@ -34,6 +35,11 @@ def _set_names(f: Func, setfuncs: Set[str]) -> Set[str]:
             if isinstance(n, ast.Assign) and len(n.targets) == 1 and isinstance(n.targets[0], ast.Name):
                 v = n.value
                 is_set = False
+                if isinstance(v, ast.IfExp):
+                    # `set() if given is None else given`: a set either way when one arm is
+                    arms = [v.body, v.orelse]
+                    if any(isinstance(x, (ast.Set, ast.SetComp)) or (isinstance(x, ast.Call) and norm(x.func) in ("set", "frozenset")) or (isinstance(x, ast.Name) and x.id in names) for x in arms):
+                        is_set = True
                 if isinstance(v, (ast.Set, ast.SetComp)):
                     is_set = True
                 elif isinstance(v, ast.Call):
@@ -649,3 +655,79 @@ def rule_no_slot_numbers_in_messages(ctx, rep, rid: str) -> None:
                                 if tainted_expr(v.value, f, locs):
                                     rep.bad(rid, f"{f.qual}:message:{norm(v.value)}", f"{f.qual} puts {norm(v.value)} into an error message, and that number is (for some caller) the position of a name in a hash-ordered table ({', '.join(sorted(tables)) or 'none'}): the text of the error changes with the host's string-hash seed", f"{f.module.rel}:{n.lineno}")
     rep.ok(rid, "messages", {"interpolations_examined": n_msgs, "hash_ordered_tables": sorted(tables)})
+
+
+# ---- an element is never PICKED from a set -----------------------------------------------------------------
+
+
+def set_like_names(ctx) -> Dict[int, Set[str]]:
+    """id(function) -> local names that hold a host set: by construction or annotation (_set_names), and parameters that
+    some resolved call site binds to such a name or to a set expression (to a fixpoint)."""
+    got = ctx.__dict__.get("_set_like")
+    if got is not None:
+        return got
+    setfuncs = _set_functions(ctx)
+    funcs = [f for f in ctx.tree.funcs if not isinstance(f.node, ast.Lambda)]
+    names: Dict[int, Set[str]] = {id(f): _set_names(f, setfuncs) for f in funcs}
+    changed = True
+    while changed:
+        changed = False
+        for cs in ctx.cg.sites:
+            if cs.kind != "resolved" or isinstance(cs.func.node, ast.Lambda):
+                continue
+            here = names.get(id(cs.func), set())
+            for t in cs.targets:
+                if isinstance(t.node, ast.Lambda) or id(t) not in names:
+                    continue
+                ps = [p for p in t.params() if p != "self"]
+                for i, a in enumerate(cs.call.args):
+                    if i < len(ps) and _is_set_expr(a, here, setfuncs) and ps[i] not in names[id(t)]:
+                        names[id(t)].add(ps[i])
+                        changed = True
+                for kw in cs.call.keywords:
+                    if kw.arg in ps and _is_set_expr(kw.value, here, setfuncs) and kw.arg not in names[id(t)]:
+                        names[id(t)].add(kw.arg)
+                        changed = True
+    ctx.__dict__["_set_like"] = names
+    return names
+
+
+def rule_no_pick_from_set(ctx, rep, rid: str, only=None) -> None:
+    """`S.pop()` on a set removes AN element - which one follows the hash of the elements (addresses for id()s, the
+    per-process seed for strings).  It is not the inverse of `S.add(x)`: a path kept as a set of ids and 'popped' on
+    the way out drops some other container and leaves this one marked, so a value that merely shares a sub-object is
+    refused as circular, differently from run to run.  `next(iter(S))` picks the same way."""
+    rep.rule(rid, "no element is taken out of a host set by position: `S.pop()` / `next(iter(S))` on a value that is a set (by construction, annotation, or through the call sites that pass it) occurs only where the set provably has one element; what was added with `S.add(x)` is taken back with `S.discard(x)` / `S.remove(x)`", floor=1)
+    names = set_like_names(ctx)
+    n_sets = 0
+    for f in ctx.tree.funcs:
+        if isinstance(f.node, ast.Lambda) or (only is not None and not only(f)):
+            continue
+        sn = names.get(id(f), set())
+        if not sn:
+            continue
+        n_sets += 1
+        picks = []
+        for c in f.own_nodes():
+            if not isinstance(c, ast.Call):
+                continue
+            if isinstance(c.func, ast.Attribute) and c.func.attr == "pop" and not c.args and isinstance(c.func.value, ast.Name) and c.func.value.id in sn:
+                picks.append((c, c.func.value.id, "pop()"))
+            if norm(c.func) == "next" and c.args and isinstance(c.args[0], ast.Call) and norm(c.args[0].func) == "iter" and c.args[0].args and isinstance(c.args[0].args[0], ast.Name) and c.args[0].args[0].id in sn:
+                picks.append((c, c.args[0].args[0].id, "next(iter(..))"))
+        if not picks:
+            rep.ok(rid, f"{f.qual}:sets-not-picked-from", {"sets": sorted(sn)})
+            continue
+        from ..util import atoms, known_conditions
+
+        for c, s, how in picks:
+            key = f"{f.qual}:{s}.{how}"
+            single = any(norm(a).replace(" ", "") in (f"len({s})==1", f"len({s})<=1", f"len({s})<2") and pol for t, p in known_conditions(c, f.node) for a, pol in atoms(t, p))
+            if single:
+                rep.ok(rid, key, {"single": True})
+            else:
+                rep.bad(rid, key, f"{f.qual} takes an element out of the set `{s}` with {how} (line {c.lineno}): which element follows the hash order of the set (object addresses, the per-process string seed), so this is not the inverse of `{s}.add(x)` - an entry added on the way in is not the one removed on the way out, and the outcome changes from run to run", f"{f.module.rel}:{c.lineno}")
+    if n_sets == 0:
+        if only is None:
+            raise AnalysisError(f"{rid}: no function holds a host set (anchor vanished)")
+        rep.ok(rid, "no-host-sets", {"note": "the functions in scope keep no host set at all"})
